@@ -100,7 +100,7 @@ class Elaborator:
                 id(m): m
                 for cache, start in zip(caches, starts)
                 for m in cache.completed[start:]
-                if m._elaborated is None and not any(m in c.failed for c in caches)
+                if m._elaborated is None and m not in ElabPass.FAILED
             }
             for module in visited.values():
                 try:
